@@ -639,6 +639,14 @@ func CDXNode(r *rand.Rand, id string, ver int, k int, first bool) *sbom.Node {
 				if p() {
 					er.Hashes[int32(Pick(r, CDXHashAlgos))] = hexish(r)
 				}
+				if r.Intn(5) == 0 {
+					// next to them a digest of an algorithm CycloneDX has no name for (or only such a digest): it is
+					// lost, the reference and its other digests are not
+					if r.Intn(3) == 0 {
+						er.Hashes = map[int32]string{}
+					}
+					er.Hashes[Pick(r, []int32{int32(sbom.HashAlgorithm_SHA224), int32(sbom.HashAlgorithm_MD4), int32(sbom.HashAlgorithm_ADLER32), int32(sbom.HashAlgorithm_MD6), 0, 99})] = hexish(r)
+				}
 			}
 			n.ExternalReferences = append(n.ExternalReferences, er)
 		}
